@@ -58,6 +58,10 @@ class ExprMixin:
         if ty == T.Card:
             if sv.ty == T.Int: return SV(ty, T.card_int(sv.t))
             if is_pystr(sv) and sv.t.as_string() in T.Card.strs: return SV(ty, T.card_str(sv.t.as_string()))
+            if sv.ty == T.Str and self.spec:
+                r = T.card_str(T.Card.strs[-1])
+                for s_ in T.Card.strs[:-1][::-1]: r = z3.If(sv.t == S(s_), T.card_str(s_), r)
+                return SV(ty, r)
         if isinstance(ty, T.Atom) and is_pystr(sv):
             return SV(ty, T.atom_const(ty, sv.t.as_string()))
         if isinstance(ty, T.List) and sv.ty == Display:
